@@ -118,6 +118,10 @@ class Run:
         """A partially consumed evaluation of a domain-less query with a (true) condition: one result, then abandoned."""
         x = let(klass, None)
         cond = x.name != ""
+        if klass is Tag:
+            # ... reaching the person through the tag's plain attribute (true for every tag, also for a detached one)
+            from krrood.entity_query_language.entity import and_
+            cond = and_(cond, x.p != x)
         if klass is Person:
             # ... whose condition also reaches ANOTHER object through an attribute (the company a person works for): true for
             # every person, and the abandoned evaluation must not keep the reached objects alive
@@ -206,6 +210,17 @@ class Run:
             else:
                 out.setdefault("error", "the rule inferred nothing")
             del inst
+        elif a == "createref":
+            # Tag(p = person) made by calling the class (SymbolGraph.tla CreateRef): a plain reference to the person
+            o = rec["o"] + self.base
+            inst = Tag(p=self.objs[rec["p"] + self.base])
+            self.objs[o] = inst
+            self.wr[o] = weakref.ref(inst)
+            self.cls[o] = "T"
+            self.addr_of[o] = id(inst)
+            del inst
+        elif a == "detach":
+            self.objs[rec["o"] + self.base].p = None
         elif a == "declare":
             # the query object is built now and evaluated by a later step
             self.declared = an(entity(let(CLS[rec["c"]], None)))
